@@ -307,7 +307,7 @@ var constActions = map[string]string{
 	"if dec.IsSimple() { *p = dec.bytesToUUID(dec.readUnsafeBytes()) } else { *p = dec.bytesToUUID(dec.ReadBytes()) }": "ARead RBytes",
 	// big numbers
 	"*p = dec.readBigInt(t)":                        "AReadBigInt NtBigInt",
-	"*p = new(big.Rat).SetInt(dec.readBigInt(t))":   "AReadBigInt NtBigRat",
+	"if bi := dec.readBigInt(t); bi != nil { *p = new(big.Rat).SetInt(bi) }": "AReadBigInt NtBigRat",
 	"*p = dec.ReadBigInt()":                         "AReadBigInt NtIface",
 	"*p = dec.readBigFloat(t)":                      "AReadBigFloat NtBigFloat",
 	"*p = dec.ReadBigFloat()":                       "AReadBigFloat NtIface",
@@ -357,12 +357,12 @@ var constActions = map[string]string{
 // statement sequences recognised as a whole (the statement-level behaviour is modelled by hand in
 // Model/DecVal.v; any edit of the Go text makes the arm AUnknown)
 var bodyActions = map[string]string{
-	"count := dec.ReadInt(); slice := reflect2.PtrOf(p); valdec.t.UnsafeGrow(slice, count); dec.AddReference(p); for i := 0; i < count; i++ { valdec.decodeElem(dec, valdec.et, valdec.t.UnsafeGetIndex(slice, i)) }; dec.Skip()": "ACall FSliceList",
-	"length := valdec.at.Len(); count := dec.ReadInt(); array := reflect2.PtrOf(p); dec.AddReference(p); n := length; if n > count { n = count }; et := valdec.et.Type1(); for i := 0; i < n; i++ { valdec.decodeElem(dec, et, valdec.at.UnsafeGetIndex(array, i)) }; switch { case n < length: for i := n; i < length; i++ { valdec.at.UnsafeSetIndex(array, i, valdec.emptyElem) } case n < count: temp := valdec.et.UnsafeNew() for i := n; i < count; i++ { valdec.decodeElem(dec, et, temp) } }; dec.Skip()": "ACall FArrayList",
+	"count := dec.ReadCount(); slice := reflect2.PtrOf(p); n := count; if n > minPrealloc { n = minPrealloc }; valdec.t.UnsafeGrow(slice, n); dec.AddReference(p); i := 0; for ; i < count && dec.Error == nil; i++ { if i >= n { n = i + 1 valdec.t.UnsafeGrow(slice, n) } valdec.decodeElem(dec, valdec.et, valdec.t.UnsafeGetIndex(slice, i)) }; (*sliceHeader)(slice).Len = i; dec.Skip()": "ACall FSliceList",
+	"length := valdec.at.Len(); count := dec.ReadCount(); array := reflect2.PtrOf(p); dec.AddReference(p); n := length; if n > count { n = count }; et := valdec.et.Type1(); for i := 0; i < n && dec.Error == nil; i++ { valdec.decodeElem(dec, et, valdec.at.UnsafeGetIndex(array, i)) }; switch { case n < length: for i := n; i < length; i++ { valdec.at.UnsafeSetIndex(array, i, valdec.emptyElem) } case n < count: temp := valdec.et.UnsafeNew() for i := n; i < count && dec.Error == nil; i++ { valdec.decodeElem(dec, et, temp) } }; dec.Skip()": "ACall FArrayList",
 	"data := dec.readUnsafeBytes(); valdec.copy(p, data); dec.AddReference(p)": "ACall FByteArrayBytes",
 	"data, _ := dec.readStringAsBytes(1); valdec.copy(p, data)":                                                                                      "ACall FByteArrayChar",
 	"if dec.IsSimple() { data, safe := dec.readStringAsBytes(dec.ReadInt()) valdec.copy(p, dec.skipAfter(data, safe)) } else { valdec.copy(p, convert.ToUnsafeBytes(dec.ReadString())) }": "ACall FByteArrayString",
-	"count := dec.ReadInt(); l := list.New(); *plist = l; if !dec.IsSimple() { dec.refer.Add(l) }; for i := 0; i < count; i++ { var e interface{} dec.decodeInterface(dec.NextByte(), &e) l.PushBack(e) }; dec.Skip()": "ACall FListList",
+	"count := dec.ReadCount(); l := list.New(); *plist = l; if !dec.IsSimple() { dec.refer.Add(l) }; for i := 0; i < count && dec.Error == nil; i++ { var e interface{} dec.decodeInterface(dec.NextByte(), &e) l.PushBack(e) }; dec.Skip()": "ACall FListList",
 	"var pair []float32; dec.decode(&pair, tag); if dec.Error == nil { if len(pair) == 2 { *p = complex(pair[0], pair[1]) } else { dec.Error = CastError{Source: reflect.TypeOf(pair), Destination: t} } }": "ACall FComplexList",
 	"var pair []float64; dec.decode(&pair, tag); if dec.Error == nil { if len(pair) == 2 { *p = complex(pair[0], pair[1]) } else { dec.Error = CastError{Source: reflect.TypeOf(pair), Destination: t} } }": "ACall FComplexList",
 }
@@ -393,8 +393,8 @@ var (
 
 func (g *dtGen) unknown(s string) string {
 	g.unk++
-	if len(s) > 400 {
-		s = s[:400] + "..."
+	if len(s) > 3000 {
+		s = s[:3000] + "..."
 	}
 	return "AUnknown " + dtStr(s)
 }
